@@ -41,6 +41,36 @@ void harness_wl_verify(void) {
     __CPROVER_assert(!ret, "witness: acceptance reachable");
 #endif
 }
+#ifdef WL_HANDOVER
+/* verdict and hand-over: for well-formed scalars the verdict is the ring verifier's, over one ring of K keys, the proof's e0 and scalars --
+ * also when the per-entry key tweak fails for some entry (e.g. offline_j = -W makes the summed key infinite): such an entry must not
+ * prevent the OTHER members' valid proofs from verifying */
+static int bor_calls, bor_ret; static size_t bor_nr, bor_rs0; static const unsigned char *bor_e0; static secp256k1_scalar bor_s[K + 1];
+int STUB_secp256k1_borromean_verify(const secp256k1_hash_ctx *hash_ctx, secp256k1_scalar *evalues, const unsigned char *e0, const secp256k1_scalar *s, const secp256k1_gej *pubs, const size_t *rsizes, size_t nrings, const unsigned char *m, size_t mlen) {
+    size_t i; (void)hash_ctx; (void)evalues; (void)pubs; (void)m; bor_calls++; bor_nr = nrings; bor_rs0 = rsizes[0]; bor_e0 = e0; __CPROVER_assert(mlen == 32, "32-byte message");
+    for (i = 0; i < K; i++) bor_s[i] = s[i];
+    bor_ret = nondet_int() & 1; return bor_ret;
+}
+static int hp_fail;
+int STUB_secp256k1_whitelist_hash_pubkey(const secp256k1_hash_ctx *hash_ctx, secp256k1_scalar *output, secp256k1_gej *pubkey) { int r = nondet_int() & 1; (void)hash_ctx; (void)pubkey; *output = verif_sc(); if (!r) hp_fail = 1; return r; }
+void harness_wl_handover(void) {
+    secp256k1_context ctx; wl_in_t in = nondet_wl_in(); int ret, bad = 0, valid = 1; size_t i;
+    verif_ctx_init(&ctx);
+    in.n_keys = K; in.sig.n_keys = K;
+    for (i = 0; i < K; i++) { if (be_val(&in.on[i].data[0], 32) == 0 || be_val(&in.off[i].data[0], 32) == 0) valid = 0; }   /* zero public key objects are an argument error */
+    if (be_val(&in.sub.data[0], 32) == 0) valid = 0;
+    __CPROVER_assume(valid);
+    ret = secp256k1_whitelist_verify(&ctx, &in.sig, in.on, in.off, in.n_keys, &in.sub);
+    for (i = 0; i < K; i++) { bvw v = be_val(&in.sig.data[32 * (i + 1)], 32); if (v == 0 || v >= verif_N()) bad = 1; }
+    if (!bad) {
+        __CPROVER_assert(bor_calls == 1 && ret == bor_ret, "well-formed scalars: the verdict is the ring verifier's (a degenerate entry does not abort verification)");
+        __CPROVER_assert(bor_nr == 1 && bor_rs0 == K && bor_e0 == &in.sig.data[0], "one ring over all K keys, e0 = the proof's first 32 bytes");
+        for (i = 0; i < K; i++) __CPROVER_assert(be_val(&in.sig.data[32 * (i + 1)], 32) == (bvw)sc_val(&bor_s[i]), "ring scalar i = proof bytes");
+        __CPROVER_assert(!(ret && hp_fail), "witness: acceptance although one entry's tweak failed");
+    }
+    __CPROVER_assert(verif_illegal_count == 0 && verif_error_count == 0, "no callbacks for valid key objects");
+}
+#endif
 /* count mismatch / oversize: every (sig->n_keys, n_keys) pair with sig->n_keys != n_keys or > 255; the ring code is unreachable,
  * which the (provable) unwinding assertions of its loops confirm */
 void harness_wl_mismatch(void) {
